@@ -450,6 +450,15 @@ func TestC13Pipeline(t *testing.T) {
 	})
 }
 
+// ... and of C16's: a gRPC call goes to a backend of the matching route of the table as the
+// registry has it now (a backend that moved is reached where it is).
+func TestC16Pipeline(t *testing.T) {
+	p := startPipeline(t)
+	hx.Check(t, hx.Scale(30, 400), func(t *rapid.T) {
+		runHistory(t, p, false)
+	})
+}
+
 func TestC14Pipeline(t *testing.T) {
 	p := startPipeline(t)
 	hx.Check(t, hx.Scale(40, 500), func(t *rapid.T) {
@@ -625,6 +634,22 @@ func runHistory(t *rapid.T, p *pipeline, withOdd bool) {
 			continue
 		}
 		switch {
+		case kind <= 2 && len(keys) > 0 && rapid.IntRange(0, 3).Draw(t, "moves") == 0:
+			// an instance comes back on another port (or address) under the same id, with the same
+			// tags and the same checks: only the catalog entry changes
+			k := rapid.SampledFrom(keys).Draw(t, "mover")
+			in := w.inst[k]
+			if rapid.Bool().Draw(t, "move-port") || in.Addr == "" {
+				in.Port += 100
+			} else {
+				in.Addr = map[string]string{"10.5.5.5": "10.6.6.6", "10.6.6.6": "10.7.7.7"}[in.Addr]
+				if in.Addr == "" {
+					in.Addr = "10.5.5.5"
+				}
+			}
+			fc.SetInstance(*in)
+			op = fmt.Sprintf("%s re-registers in place: addr=%q port=%d (tags and checks unchanged)", k, in.Addr, in.Port)
+			hx.Class("history-with-in-place-re-registration")
 		case kind <= 2 || len(keys) == 0: // register (or re-register with new data)
 			in := genInstance(t, w)
 			w.ensureNode(fc, in)
